@@ -154,7 +154,7 @@ theorem same_sinkMove (l : Link) (now : Int) (l' : Link) (h : l.sinkMove now = s
           · cases h
 
 theorem same_stageMove (l : Link) (i : Nat) (now : Int) (busy : Bool) (l' : Link)
-    (h : l.stageMove i now busy = some l') : Same l l' ∨ l'.crash.isSome := by
+    (h : l.stageMove i now busy = some l') : Same l l' ∨ (l'.crash.isSome ∧ l'.ctl = l.ctl) := by
   cases hs : l.stages[i]? with
   | none => simp [Link.stageMove, hs] at h
   | some s =>
@@ -163,7 +163,7 @@ theorem same_stageMove (l : Link) (i : Nat) (now : Int) (busy : Bool) (l' : Link
       unfold Link.stageMove at h
       simp only [hs, hw, Option.some.injEq] at h
       subst h
-      exact Or.inr rfl
+      exact Or.inr ⟨rfl, rfl⟩
     · left
       have hnc : ∀ w, s.pc ≠ .crash w := fun w hw => hcr ⟨w, hw⟩
       rw [stageMove_body l i now busy s hs hnc] at h
@@ -488,10 +488,73 @@ theorem t_move (chain : List TCfg) (l : Link) (now : Int) (busy : Bool) (l' : Li
     rcases hf with rfl | rfl
     · rcases same_stageMove l i now busy l' hfa with hs | hcr
       · exact hs.tinv ht
-      · rw [hi'.nocrash] at hcr; cases hcr
+      · rw [hi'.nocrash] at hcr; cases hcr.1
     · exact (same_bufferMove l i now l' hfa).tinv ht
   · subst hf
     exact (same_sourceMove l now l' hfa).tinv ht
+
+theorem same_recvAlt (l : Link) (i : Nat) (now : Int) (l' : Link) (h : l.recvAlt i now = some l') : Same l l' := by
+  unfold Link.recvAlt at h
+  cases hs : l.stages[i]? with
+  | none => simp [hs] at h
+  | some s =>
+    simp only [hs] at h
+    unfold recvPart at h
+    split at h
+    · cases hio : l.inputOf i with
+      | none => simp [hio] at h
+      | some r =>
+        obtain ⟨c, src⟩ := r
+        simp only [hio, Option.some.injEq] at h
+        subst h
+        exact same_stages l _ (same_consume l i src c.isSome now) i _ (fun s => fire_t s _) _
+    · cases h
+
+theorem same_intrAlt (l : Link) (i : Nat) (now : Int) (l' : Link) (h : l.intrAlt i now = some l') : Same l l' := by
+  unfold Link.intrAlt at h
+  cases hs : l.stages[i]? with
+  | none => simp [hs] at h
+  | some s =>
+    simp only [hs] at h
+    split at h
+    · cases h
+      exact same_stages l l (same_refl l) i (fun s => { (s.fire (.interrupt now)) with intr := .waitRet })
+        (fun s => fire_t s _) l.race
+    · cases h
+
+theorem t_ctlTakeAlt (chain : List TCfg) (l : Link) (ht : TInv chain l) (now : Int) (l' : Link)
+    (h : l.ctlTakeAlt now = some l') : TInv chain l' := by
+  unfold Link.ctlTakeAlt at h
+  split at h
+  · rename_i idx dl sg hc
+    split at h
+    · rename_i c src _
+      cases h
+      have hsame := same_consume l idx src true now
+      unfold TInv at ht ⊢
+      rw [hc] at ht
+      have : Link.ts { (l.consume idx src true now) with ctl := some (.rmLoop idx (some c) (now + 5000 * ms) sg) } =
+          (l.consume idx src true now).ts := rfl
+      simp only [TFor] at ht ⊢
+      rw [this, hsame.1]
+      exact ht
+    · cases h
+  · cases h
+
+theorem t_anymove (chain : List TCfg) (l : Link) (now : Int) (busy : Bool) (l' : Link) (hi : RInv chain l) (ht : TInv chain l)
+    (hng : NoGiveUp l now) (h : l.AnyMove chain now busy l') : TInv chain l' := by
+  have hi' := C02_anymove_conserves chain l now busy l' hi hng h
+  rcases h.2 with h' | h' | ⟨i, h'⟩ | ⟨i, h'⟩ | h' | ⟨i, h'⟩ | ⟨i, h'⟩ | h'
+  · exact t_ctlMove chain l hi ht now hng l' h'
+  · exact (same_sinkMove l now l' h').tinv ht
+  · rcases same_stageMove l i now busy l' h' with hs | hcr
+    · exact hs.tinv ht
+    · rw [hi'.nocrash] at hcr; cases hcr.1
+  · exact (same_bufferMove l i now l' h').tinv ht
+  · exact (same_sourceMove l now l' h').tinv ht
+  · exact (same_recvAlt l i now l' h').tinv ht
+  · exact (same_intrAlt l i now l' h').tinv ht
+  · exact t_ctlTakeAlt chain l ht now l' h'
 
 theorem t_new (chain : List TCfg) (now : Int) : TInv chain (Link.new chain now) := by
   unfold TInv
@@ -505,7 +568,7 @@ theorem t_exec {c0 : List TCfg} {l0 : Link} {chain : List TCfg} {l : Link} (h0 :
     (h : Exec c0 l0 chain l) : TInv chain l := by
   induction h with
   | refl => exact t0
-  | move now busy l' he hng hm ih => exact t_move _ _ now busy l' (RInv_exec h0 he) ih hng hm
+  | move now busy l' he hng hm ih => exact t_anymove _ _ now busy l' (RInv_exec h0 he) ih hng hm
   | env q ready _ ih => exact ih
   | @add chain l t _ hc hne hs ih =>
     unfold TInv at ih ⊢
